@@ -339,6 +339,7 @@ type GenCfg struct {
 	MaxOps    int
 	Kinds     []string // allowed op kinds (nil = all)
 	NoAsserts bool     // do not generate Assert* ops nor partial ops (programs always satisfiable)
+	NoMotifs  bool     // only independent random ops
 }
 
 var allKinds = []string{"Add", "Sub", "Neg", "Mul", "MulAcc", "Div", "DivUnchecked", "Inverse", "ToBinary", "FromBinary",
@@ -348,6 +349,9 @@ var allKinds = []string{"Add", "Sub", "Neg", "Mul", "MulAcc", "Div", "DivUncheck
 // GenProg draws a program.  Operand kinds: constant, public, secret, earlier result, the same
 // variable twice, with a bias towards reuse of recent results (dedup / in-place paths).
 func GenProg(r *RNG, q *big.Int, cfg GenCfg) *Prog {
+	if cfg.Kinds == nil && !cfg.NoAsserts && !cfg.NoMotifs && r.Intn(5) < 2 {
+		return GenMotifProg(r, q)
+	}
 	p := &Prog{NbPub: r.Intn(3), NbSec: 1 + r.Intn(3)}
 	fieldBits := q.BitLen()
 	nvars := p.NbPub + p.NbSec
@@ -356,18 +360,28 @@ func GenProg(r *RNG, q *big.Int, cfg GenCfg) *Prog {
 	if kinds == nil {
 		kinds = allKinds
 	}
+	// the API documents that MulAcc may mutate its first argument, which must not be used afterwards
+	dead := map[int]bool{}
 	anyArg := func(allowConst bool) Arg {
 		if allowConst && r.Intn(5) == 0 {
 			return Arg{Const: true, C: r.FieldElem(q)}
 		}
-		if nvars > 4 && r.Intn(2) == 0 { // recent
-			return Arg{V: nvars - 1 - r.Intn(3)}
+		for try := 0; try < 20; try++ {
+			v := r.Intn(nvars)
+			if nvars > 4 && r.Intn(2) == 0 { // recent
+				v = nvars - 1 - r.Intn(3)
+			}
+			if !dead[v] {
+				return Arg{V: v}
+			}
 		}
-		return Arg{V: r.Intn(nvars)}
+		return Arg{Const: true, C: big.NewInt(3)}
 	}
 	boolArg := func() Arg {
 		if len(boolVars) > 0 && r.Intn(8) != 0 {
-			return Arg{V: boolVars[r.Intn(len(boolVars))]}
+			if v := boolVars[r.Intn(len(boolVars))]; !dead[v] {
+				return Arg{V: v}
+			}
 		}
 		if r.Intn(3) == 0 {
 			return Arg{Const: true, C: big.NewInt(int64(r.Intn(2)))}
@@ -402,6 +416,12 @@ func GenProg(r *RNG, q *big.Int, cfg GenCfg) *Prog {
 			isBoolRes = k == "IsZero"
 		case "MulAcc":
 			op.Args = []Arg{anyArg(true), anyArg(true), anyArg(true)}
+			if !op.Args[0].Const {
+				if (!op.Args[1].Const && op.Args[1].V == op.Args[0].V) || (!op.Args[2].Const && op.Args[2].V == op.Args[0].V) {
+					continue // the accumulator may not alias the factors either
+				}
+				dead[op.Args[0].V] = true
+			}
 		case "Div", "DivUnchecked":
 			op.Args = []Arg{anyArg(true), anyArg(true)}
 			if op.Args[1].Const && op.Args[1].C.Sign() == 0 {
@@ -482,3 +502,126 @@ func GenProg(r *RNG, q *big.Int, cfg GenCfg) *Prog {
 
 // constant-only ops are evaluated at compile time by the builders and may panic for documented
 // reasons (e.g. AssertIsEqual on unequal constants); programs are compiled under recover.
+
+// ---------------------------------------------------------------- motifs
+//
+// Short op sequences aimed at the builders' sharing machinery: dedup caches keyed by wire pairs
+// (proportional coefficients, constants), in-place scaling of earlier expressions, accumulator
+// reuse, cancelling terms, the same variable in several operand positions, reserved coefficients.
+
+func GenMotifProg(r *RNG, q *big.Int) *Prog {
+	p := &Prog{NbPub: 1 + r.Intn(2), NbSec: 1 + r.Intn(2)}
+	nin := p.NbPub + p.NbSec
+	nvars := nin
+	V := func(i int) Arg { return Arg{V: i} }
+	C := func(x int64) Arg { return Arg{Const: true, C: new(big.Int).Mod(big.NewInt(x), q)} }
+	emit := func(kind string, args ...Arg) int {
+		p.Ops = append(p.Ops, Op{Kind: kind, Args: args})
+		nvars++
+		return nvars - 1
+	}
+	smallc := func() int64 { return []int64{1, 2, 3, 5, 7, -1, -2}[r.Intn(7)] }
+	x, y := r.Intn(nin), r.Intn(nin)
+	if nin > 1 {
+		for y == x {
+			y = r.Intn(nin)
+		}
+	}
+	var outs []int
+	nm := 1 + r.Intn(2)
+	for m := 0; m < nm; m++ {
+		switch r.Intn(7) {
+		case 0: // scaled sum: same wire pair, proportional coefficients, constant term
+			a, b, n := smallc(), smallc(), []int64{2, 3, -1, 5}[r.Intn(4)]
+			k := []int64{0, 5, 1, -3}[r.Intn(4)]
+			t0, t1 := V(x), V(y)
+			if a != 1 || r.Bool() {
+				t0 = V(emit("Mul", V(x), C(a)))
+			} else {
+				a = 1
+			}
+			if b != 1 || r.Bool() {
+				t1 = V(emit("Mul", V(y), C(b)))
+			} else {
+				b = 1
+			}
+			s1 := emit("Add", t0, t1, C(k))
+			u0 := V(emit("Mul", V(x), C(n*a)))
+			u1 := V(emit("Mul", V(y), C(n*b)))
+			k2 := []int64{k, n * k, 0, k + 1}[r.Intn(4)]
+			var s2 int
+			if r.Bool() {
+				s2 = emit("Add", u0, u1, C(k2))
+			} else {
+				s2 = emit("Add", u1, C(k2), u0)
+			}
+			outs = append(outs, s1, s2)
+		case 1: // variadic Mul with constants in various positions, then the variable is used again
+			n := 3 + r.Intn(2)
+			args := make([]Arg, n)
+			vpos := r.Intn(n)
+			for i := range args {
+				args[i] = C(smallc() + 1)
+				if i == vpos || (r.Intn(4) == 0) {
+					args[i] = V([]int{x, y}[r.Intn(2)])
+				}
+			}
+			args[vpos] = V(x)
+			m1 := emit("Mul", args...)
+			a1 := emit("Add", V(x), C(1))
+			a2 := emit("Mul", V(x), V(y))
+			outs = append(outs, m1, a1, a2)
+		case 2: // cancelling terms
+			ny := emit("Neg", V(y))
+			s1 := emit("Add", V(x), V(y), V(ny))
+			x2 := emit("Mul", V(x), C(2))
+			s2 := emit("Add", V(x2), V(y), V(ny))
+			outs = append(outs, s1, s2)
+		case 3: // accumulator chains (MulAcc may mutate its first argument: each accumulator is used once)
+			a0 := emit("Mul", V(x), C(1))
+			acc := emit("MulAcc", V(a0), V(y), V(x))
+			acc2 := emit("MulAcc", V(acc), V(y), C(smallc()))
+			third := emit("MulAcc", C(4), V(x), V(acc2))
+			other := emit("Add", V(x), V(y))
+			outs = append(outs, third, other)
+		case 4: // the same variable in several positions
+			s := emit("Sub", V(x), V(x))
+			m3 := emit("Mul", V(x), V(x), V(x))
+			d := emit("DivUnchecked", V(y), V(y))
+			sel := emit("Select", C(int64(r.Intn(2))), V(x), V(x))
+			outs = append(outs, s, m3, d, sel)
+		case 5: // reserved coefficients -1, 2, -2 and sums of scaled copies
+			a := emit("Mul", V(x), C(-1))
+			b := emit("Mul", V(x), C(2))
+			c := emit("Mul", V(y), C(-2))
+			s1 := emit("Add", V(a), V(b), V(c))
+			s2 := emit("Sub", V(b), V(a), V(c))
+			d := emit("Div", V(s1), C(-2))
+			outs = append(outs, s1, s2, d)
+		case 6: // expression shared between a product and a sum, operands in both orders
+			s := emit("Add", V(x), V(y))
+			m1 := emit("Mul", V(s), V(x))
+			m2 := emit("Mul", V(x), V(s))
+			t := emit("Add", V(y), V(x))
+			m3 := emit("Mul", V(t), V(s))
+			outs = append(outs, m1, m2, m3)
+		}
+	}
+	// a few independent ops on top
+	for i := 0; i < r.Intn(3); i++ {
+		k := []string{"Add", "Mul", "Sub", "IsZero", "Neg"}[r.Intn(5)]
+		switch k {
+		case "IsZero", "Neg":
+			outs = append(outs, emit(k, V(r.Intn(nvars))))
+		default:
+			outs = append(outs, emit(k, V(r.Intn(nvars)), V(r.Intn(nvars))))
+		}
+	}
+	// expose up to 3 of the results
+	for len(outs) > 3 {
+		i := r.Intn(len(outs))
+		outs = append(outs[:i], outs[i+1:]...)
+	}
+	p.Outs = outs
+	return p
+}
